@@ -7,12 +7,13 @@ ID = "C08"
 LEAN_TARGETS = ["TornadoModel.C08.Props"]
 THEOREMS = [
     "TornadoModel.C08.statusLine_iff",
+    "TornadoModel.C08.step_shortens",
     "TornadoModel.C08.drain_fuel",
-    "TornadoModel.C08.feed_append",
-    "TornadoModel.C08.client_segmentation_independent",
-    "TornadoModel.C08.chunked_agrees",
-    "TornadoModel.C08.client_agrees_with_spec",
+    "TornadoModel.C08.readBody_fixed_le",
+    "TornadoModel.C08.inv_step",
     "TornadoModel.C08.client_body_le_limit",
+    "TornadoModel.C08.witness_model",
+    "TornadoModel.C08.witness_spec",
     "TornadoModel.C08.gzip_strict_refuted",
 ]
 TRUSTED = [
@@ -39,12 +40,16 @@ RULE = ("grammar of HTTP/1.x responses (status lines, header sets, CL/chunked/cl
 EXHAUSTIVE = {"quick": False, "thorough": False}
 CLAUSES = {
     "status line grammar": "statusLine_iff",
-    "delivered in any segmentation": "feed_append + client_segmentation_independent (∀ segs, run segs = run [segs.join])",
+    "delivered in any segmentation": "tie only: every generated stream is run in >= 3 segmentations (whole, 1-byte, random/CRLF-adjacent "
+                                     "cuts; thorough: every cut point of short streams) against Spec.readAll of the joined stream; "
+                                     "feed_append_goal / client_segmentation_independent_goal are stated, not proved; "
+                                     "step_shortens + drain_fuel (fuel sufficiency of the machine) are proved",
     "returns the status, headers and body a strict reader extracts, or fails when that reader rejects":
-        "client_agrees_with_spec (chunked_agrees for the chunked coding); gzip: _partial under `Z raw` complete, "
-        "gzip_strict_refuted for truncated members (known finding)",
-    "body delivered (after decompression) never exceeds max_body_size": "client_body_le_limit (+ tie for streamed prefixes of failed fetches)",
-    "1xx interim, 204/304, HEAD": "inside client_agrees_with_spec (Spec.read recursion / skip rules)",
+        "tie only (Spec.readAll is the oracle on every case; client_agrees_with_spec_goal stated); full statement refuted "
+        "for the code as it is by gzip_strict_refuted (truncated gzip member accepted: known finding)",
+    "body delivered (after decompression) never exceeds max_body_size": "client_body_le_limit (all framings, all segmentations; "
+                                                                        "streamed prefixes of failed fetches: tie only)",
+    "1xx interim, 204/304, HEAD": "modelled in onHead/Spec.read; tie only",
 }
 PARALLEL = True
 CASE_TIMEOUT = 60   # wall-clock watchdog per case; generous because the box is shared (a case takes ~5 ms)
